@@ -1862,6 +1862,17 @@ impl Gen {
                 self.hdr("hdr", bo, &hex(&build_msg(bo, 4, 0, 1, 9, &[fstr(1, 'o', "/a"), fstr(2, 's', "a.b"), fstr(3, 's', "M")], &[], None)));
             }
         }
+        // headers that end at every residue modulo 8 (the member name is the last field): 0..7 bytes of padding separate
+        // header and body; these join the messages that are corrupted and truncated below
+        for bo in ORDERS {
+            for k in 1..=8usize {
+                let member = "M".repeat(k);
+                let body = [1u8, 2, 3, 4, 5, 6, 7, 8];
+                let m = build_msg(bo, 4, 0, 1, 9, &[fstr(1, 'o', "/a"), fstr(2, 's', "a.b"), fstr(8, 'g', "t"), fstr(3, 's', &member)], &body, None);
+                self.hdr("hdr", bo, &hex(&m));
+                valid.push((bo, m));
+            }
+        }
         // every string-like header field holding a boundary string (empty, a lone separator, one element, ...)
         let edge = ["", ".", ":", "/", "a", "a.", ".a", "a..b", ":.", ":1", ":a.", "..", "::", "-", "_", "1", "a.1", "\u{e9}", "a.b", "//", "/a/", ":1.5"];
         for bo in ORDERS {
